@@ -20,20 +20,16 @@ def n_cases(tier, quick, thorough):
 
 
 # ------------------------------------------------------------------ real-code helpers
-def abs_row(s):
-    from decimal import Decimal
-
-    from xsdata.formats.converter import converter
-
-    return [s, bool(converter.test(s, [float], strict=True)), bool(converter.test(s, [Decimal], strict=True))]
-
-
-def abs_table(strings):
-    seen, out = set(), []
+def freprs(strings):
+    """`repr(float(s))` for the strings of a request that `float()` accepts: the one function of the float
+    converter the Lean model does not compute (CEnv.floatRepr)"""
+    out = {}
     for s in strings:
-        if isinstance(s, str) and s not in seen:
-            seen.add(s)
-            out.append(abs_row(s))
+        if isinstance(s, str) and s not in out:
+            try:
+                out[s] = repr(float(s))
+            except ValueError:
+                pass
     return out
 
 
@@ -84,7 +80,9 @@ HAND_STRINGS = [
     "1.5", "1.50", "1e5", "1E5", "NaN", "INF", "-INF", "inf", "nan", "Infinity", ".5", "5.", "0.1", "-0.0", "123456789012345678901.5",
     "12.5", "1E22", "2.5E-07", "12:30:00", "12:30:00Z", "12:30:00.5", "24:00:00", "25:00:00", "12:30", "2020-01-15", "2020-02-30", "2020-01-15Z",
     "2020-01-15+02:00", "2020-01-15T10:00:00", "2020-01-15T10:00:00.123Z", "2020-01-15 10:00:00", "P1D", "PT1S", "-P1Y", "P", "PT", "P1Y2M3DT4H5M6.5S",
-    " P1D ", "2020-05", "2020", "--05", "--05-12", "---12", "--13", "---32", "-2020-05", "abc", "{urn:a}b", "a:b", "007", "0x1F", "9" * 30, "-" + "9" * 30,
+    " P1D ", "1_0.5", "１２", "١.٥", "1e400", "-1e400", "0E-7", "+.5", "NaN ", "sNaN", "-Infinity", "1E+2", "1e-5", "0.000001", "1E-7",
+    "100000000000000000000", "1.0E22", "1e22", "12.0", "-0.0", "0.10", "00.5", "1.", "1e", "e1", "1 000", "1,5", "0x10", "1.7976931348623157E308", "5E-324",
+    "9999999999999999.0", "0.30000000000000004", "1E1000000", "1E-1000000", "2020-05", "2020", "--05", "--05-12", "---12", "--13", "---32", "-2020-05", "abc", "{urn:a}b", "a:b", "007", "0x1F", "9" * 30, "-" + "9" * 30,
 ]
 
 
@@ -115,10 +113,10 @@ def random_string(rng):
 def gen_test_strict(rng, tier):
     for s in HAND_STRINGS:
         for t in TYPE_NAMES:
-            yield {"t": t, "s": s, "abs": [abs_row(s)]}
+            yield {"t": t, "s": s, "freprs": freprs([s])}
     for _ in range(n_cases(tier, 1500, 40000)):
         s = random_string(rng)
-        yield {"t": rng.choice(TYPE_NAMES), "s": s, "abs": [abs_row(s)]}
+        yield {"t": rng.choice(TYPE_NAMES), "s": s, "freprs": freprs([s])}
 
 
 def impl_test_strict(a):
@@ -141,11 +139,11 @@ def gen_infer(rng, tier):
     from xsdata.models.enums import QNames
 
     for s in HAND_STRINGS:
-        yield {"qname": "x", "value": S.enc_scalar(s), "abs": [abs_row(s)]}
+        yield {"qname": "x", "value": S.enc_scalar(s), "freprs": freprs([s])}
     for v in HAND_VALUES:
-        yield {"qname": "{urn:a}x", "value": S.enc_scalar(v), "abs": []}
-    yield {"qname": QNames.XSI_TYPE, "value": S.enc_scalar("xs:int"), "abs": [abs_row("xs:int")]}
-    yield {"qname": QNames.XSI_TYPE, "value": None, "abs": []}
+        yield {"qname": "{urn:a}x", "value": S.enc_scalar(v), "freprs": {}}
+    yield {"qname": QNames.XSI_TYPE, "value": S.enc_scalar("xs:int"), "freprs": freprs(["xs:int"])}
+    yield {"qname": QNames.XSI_TYPE, "value": None, "freprs": {}}
     for _ in range(n_cases(tier, 1500, 40000)):
         r = rng.random()
         if r < 0.8:
@@ -154,7 +152,7 @@ def gen_infer(rng, tier):
             v = rng.randint(-(2**rng.randint(1, 70)), 2**rng.randint(1, 70))
         else:
             v = rng.choice([rng.uniform(-10, 10), rng.uniform(-1e39, 1e39), rng.uniform(-1e-37, 1e-37), float(rng.randint(-5, 5))])
-        yield {"qname": "x", "value": S.enc_scalar(v), "abs": [abs_row(v)] if isinstance(v, str) else []}
+        yield {"qname": "x", "value": S.enc_scalar(v), "freprs": freprs([v])}
 
 
 def dec_scalar(v):
@@ -348,13 +346,13 @@ HAND_XML = [
 
 def xml_args(trees, texts=None):
     strings = [s for t in trees for s in S.tree_strings(t)]
-    return {"docs": trees, "texts": texts or [S.to_xml(t) for t in trees], "abs": abs_table(strings)}
+    return {"docs": trees, "texts": texts or [S.to_xml(t) for t in trees], "freprs": freprs(strings)}
 
 
 def gen_map_xml(rng, tier):
     for h in HAND_XML:
         t = S.from_xml(h)
-        yield {"root": t, "text": h, "abs": abs_table(S.tree_strings(t))}
+        yield {"root": t, "text": h, "freprs": freprs(S.tree_strings(t))}
     for i in range(n_cases(tier, 250, 6000)):
         if i % 3 == 0:
             t = S.instance(rng, S.gen_xml_model(rng, hetero=0.3, nil=0.2, empty=0.2))
@@ -363,7 +361,7 @@ def gen_map_xml(rng, tier):
             t = random_tree(rng)
             text = S.to_xml(t)
         t = S.from_xml(text)  # what an independent XML reader sees in the text
-        yield {"root": t, "text": text, "abs": abs_table(S.tree_strings(t)), "regular": i % 3 == 0}
+        yield {"root": t, "text": text, "freprs": freprs(S.tree_strings(t)), "regular": i % 3 == 0}
 
 
 def impl_map_xml(a):
@@ -457,10 +455,10 @@ HAND_JSON = [
 
 def gen_map_json(rng, tier):
     for h in HAND_JSON:
-        yield {"data": S.enc_json(h), "raw": h, "name": "doc", "abs": abs_table(S.json_strings(h))}
+        yield {"data": S.enc_json(h), "raw": h, "name": "doc", "freprs": freprs(S.json_strings(h))}
     for i in range(n_cases(tier, 300, 8000)):
         d = S.json_instance(rng, S.gen_json_model(rng, hetero=0.3)) if i % 2 else random_json(rng)
-        yield {"data": S.enc_json(d), "raw": d, "name": "doc", "abs": abs_table(S.json_strings(d)), "regular": bool(i % 2)}
+        yield {"data": S.enc_json(d), "raw": d, "name": "doc", "freprs": freprs(S.json_strings(d)), "regular": bool(i % 2)}
 
 
 def impl_map_json(a):
@@ -475,14 +473,14 @@ def impl_map_json(a):
 def gen_json_docs(rng, tier):
     hand = [[{"a": 1}, {"a": None}], [{"a": "12"}, {"a": "x"}], [{"a": []}, {"a": [1.5]}], [{"a": {"b": 1}}, {"a": {"c": 2}}, {}]]
     for docs in hand:
-        yield {"docs": [S.enc_json(d) for d in docs], "raw": docs, "name": "doc", "abs": abs_table(s for d in docs for s in S.json_strings(d))}
+        yield {"docs": [S.enc_json(d) for d in docs], "raw": docs, "name": "doc", "freprs": freprs(s for d in docs for s in S.json_strings(d))}
     for i in range(n_cases(tier, 250, 6000)):
         if i % 3 == 2:
             docs = [random_json(rng) for _ in range(rng.randint(1, 3))]
         else:
             m = S.gen_json_model(rng, hetero=0.3)
             docs = [S.json_instance(rng, m) for _ in range(rng.randint(1, 4))]
-        yield {"docs": [S.enc_json(d) for d in docs], "raw": docs, "name": "doc", "abs": abs_table(s for d in docs for s in S.json_strings(d)), "regular": i % 3 != 2}
+        yield {"docs": [S.enc_json(d) for d in docs], "raw": docs, "name": "doc", "freprs": freprs(s for d in docs for s in S.json_strings(d)), "regular": i % 3 != 2}
 
 
 def impl_json_docs(a):
@@ -1032,7 +1030,7 @@ HAND_OK_XML = [
 
 def e2e_xml_args(docs):
     trees = [S.from_xml(d) for d in docs]
-    return {"docs": docs, "trees": trees, "abs": abs_table(s for t in trees for s in S.tree_strings(t))}
+    return {"docs": docs, "trees": trees, "freprs": freprs(s for t in trees for s in S.tree_strings(t))}
 
 
 def gen_e2e_xml(rng, tier):
@@ -1058,7 +1056,7 @@ def impl_e2e_xml(a):
 
 
 def e2e_json_args(docs):
-    return {"docs": docs, "enc": [S.enc_json(d) for d in docs], "name": "doc", "abs": abs_table(s for d in docs for s in S.json_strings(d))}
+    return {"docs": docs, "enc": [S.enc_json(d) for d in docs], "name": "doc", "freprs": freprs(s for d in docs for s in S.json_strings(d))}
 
 
 def clean_json_docs(rng, hetero=0.0):
